@@ -48,21 +48,32 @@ func (w *World) orderSites(extraTainted map[string]bool) []orderSite {
 		fkeys = append(fkeys, k)
 	}
 	sort.Strings(fkeys)
+	count := map[string]int{}
 	for _, k := range fkeys {
 		fi := w.Funcs[k]
 		if fi.Decl.Body == nil {
 			continue
 		}
 		info := fi.Pkg.TypesInfo
-		count := map[string]int{}
-		mk := func(kind, what string, pos token.Pos) orderSite {
-			base := fi.Key + ":" + kind + "(" + what + ")"
-			count[base]++
-			key := base
-			if count[base] > 1 {
-				key = fmt.Sprintf("%s#%d", base, count[base])
+		// a site inside a new function is attributed to the reviewed function(s) it is reached from
+		mk := func(kind, what string, pos token.Pos) []orderSite {
+			var ss []orderSite
+			for _, host := range hostParts(w.hostKey(fi.Key)) {
+				base := host + ":" + kind + "(" + what + ")"
+				count[base]++
+				key := base
+				if count[base] > 1 {
+					key = fmt.Sprintf("%s#%d", base, count[base])
+				}
+				ss = append(ss, orderSite{Fn: host, Kind: kind, What: what, Pos: pos, Key: key})
 			}
-			return orderSite{Fn: fi.Key, Kind: kind, What: what, Pos: pos, Key: key}
+			return ss
+		}
+		mapTypeOf := func(e ast.Expr) string {
+			if t := info.TypeOf(e); t != nil {
+				return short(types.TypeString(t, nil))
+			}
+			return exprString(e)
 		}
 		// sort calls in the function: variable name -> positions
 		sorted := map[string][]token.Pos{}
@@ -97,12 +108,13 @@ func (w *World) orderSites(extraTainted map[string]bool) []orderSite {
 				if _, isMap := t.Underlying().(*types.Map); !isMap {
 					return true
 				}
-				s := mk("range-map", exprString(x.X), x.Pos())
 				eff := map[string]bool{}
 				w.loopEffects(fi, x.Body, eff, x)
-				s.Effects = keys(eff)
-				s.Class = classifyEffects(eff, func(v string) bool { return sortedAfter(v, x.End()) })
-				out = append(out, s)
+				for _, s := range mk("range-map", mapTypeOf(x.X), x.Pos()) {
+					s.Effects = keys(eff)
+					s.Class = classifyEffects(eff, func(v string) bool { return sortedAfter(v, x.End()) })
+					out = append(out, s)
+				}
 			case *ast.CallExpr:
 				cn := calleeOfCall(info, x)
 				tainted, label := isTaintedCallee(cn)
@@ -112,21 +124,70 @@ func (w *World) orderSites(extraTainted map[string]bool) []orderSite {
 				if !tainted {
 					return true
 				}
-				s := mk("call", label, x.Pos())
-				s.Class = "unclassified"
+				kind, what := "call", label
+				if (cn == "maps.Keys" || cn == "maps.Values") && len(x.Args) == 1 {
+					// the iterator form of ranging over the map
+					kind, what = "range-map", mapTypeOf(x.Args[0])
+				}
+				class := "unclassified"
+				var effects []string
 				// where does the result go?
-				if dst := w.assignedTo(fi, x); dst != "" {
-					s.Effects = []string{"assigned:" + dst}
+				outer := w.collectWrapper(fi, x)
+				if w.sortedDirectly(fi, outer) {
+					class = "sorted:in-place(slices.Sorted)"
+				} else if dst := w.assignedTo(fi, outer); dst != "" {
+					effects = []string{"assigned:" + dst}
 					if sortedAfter(dst, x.End()) {
-						s.Class = "sorted:" + dst
+						class = "sorted:" + dst
 					}
 				}
-				out = append(out, s)
+				for _, s := range mk(kind, what, x.Pos()) {
+					s.Class, s.Effects = class, effects
+					out = append(out, s)
+				}
 			}
 			return true
 		})
 	}
 	return out
+}
+
+// parentCall: the call expression of which e is a direct argument, nil otherwise.
+func parentCall(fi *FuncInfo, e ast.Expr) *ast.CallExpr {
+	var res *ast.CallExpr
+	ast.Inspect(fi.Decl, func(n ast.Node) bool {
+		if c, ok := n.(*ast.CallExpr); ok {
+			for _, a := range c.Args {
+				if a == e {
+					res = c
+				}
+			}
+		}
+		return res == nil
+	})
+	return res
+}
+
+// collectWrapper: slices.Collect(it) / slices.AppendSeq(s, it) materialise an iterator
+// without ordering it: the enclosing call stands for the iterator call.
+func (w *World) collectWrapper(fi *FuncInfo, call *ast.CallExpr) *ast.CallExpr {
+	if p := parentCall(fi, call); p != nil {
+		if n := calleeOfCall(fi.Pkg.TypesInfo, p); strings.HasPrefix(n, "slices.Collect") || strings.HasPrefix(n, "slices.AppendSeq") {
+			return p
+		}
+	}
+	return call
+}
+
+// sortedDirectly: the call is the argument of slices.Sorted / SortedFunc / SortedStableFunc.
+func (w *World) sortedDirectly(fi *FuncInfo, call *ast.CallExpr) bool {
+	if p := parentCall(fi, call); p != nil {
+		n := calleeOfCall(fi.Pkg.TypesInfo, p)
+		if strings.HasPrefix(n, "slices.Sorted") && !unstableSortKey(fi.Pkg.TypesInfo, p) {
+			return true
+		}
+	}
+	return false
 }
 
 // assignedTo returns the variable a call's result is assigned to, "" otherwise.
